@@ -71,7 +71,7 @@ def check_graph(ctx, case):
     has_catch = any(k for _, _, k in case['edges'])
     labels = ['fam:' + case.get('family', '?'), 'cross-edge' if ncross else 'no-cross-edge',
               'back>=2' if nback >= 2 else 'back=%d' % nback, 'catch-edges' if has_catch else 'normal-only',
-              'n<=5' if n <= 5 else 'n<=20' if n <= 20 else 'n<=100' if n <= 100 else 'n<=300']
+              'n<=5' if n <= 5 else 'n<=20' if n <= 20 else 'n<=100' if n <= 100 else 'n<=300' if n <= 300 else 'n>1000' if n > 1000 else 'n<=1000']
     ctx.case(nontrivial=bool(ncross) or nback >= 2, key=(n, tuple(map(tuple, case['edges']))), labels=labels,
              sample={'n': n, 'edges': case['edges'][:40], 'back': nback, 'cross': ncross})
     rec = {'n': n, 'edges': case['edges'], 'family': case.get('family', '?')}
@@ -95,6 +95,9 @@ def check_graph(ctx, case):
     # history: the same Graph object is modified (one more edge between existing nodes, normal or catch, derived
     # deterministically from the case) and numbered again: the new numbering must be valid for the *modified* graph.
     h = (n * 131 + sum((a * 31 + b * 17 + k * 7 + i) for i, (a, b, k) in enumerate(case['edges']))) & 0xffff
+    if n >= 3 and h % 4 == 1:
+        _remove_history(ctx, case, rec, cls, g, nodes, succ, h)
+        return
     if n < 2 or h % 2:
         return
     a, b, k = (h >> 1) % n, (h >> 5) % n, (h >> 9) % 2
@@ -120,11 +123,74 @@ def check_graph(ctx, case):
                      'after adding edge %r and calling compute_rpo() again: ' % (extra,) + '; '.join(d for c, d in probs if c == clause)[:600])
 
 
+def _remove_history(ctx, case, rec, cls, g, nodes, succ, h):
+    """history: one non-entry node is removed from the same Graph object (Graph.remove_node, as simplify() does with
+    empty nodes) and the graph is numbered again; if the remaining nodes are still all reachable, the new numbering must
+    be valid for the remaining graph."""
+    n = case['n']
+    r = 1 + (h >> 3) % (n - 1)
+    keep = [i for i in range(n) if i != r]
+    new = {old: k for k, old in enumerate(keep)}
+    succ2 = {new[i]: [new[b] for b in succ[i] if b != r] for i in keep}
+    if len(dm.reachable(succ2, 0)) != n - 1:
+        ctx.count('remove_history_skipped_unreachable')
+        return
+    try:
+        g.remove_node(nodes[r])
+        g.compute_rpo()
+        num2 = {new[i]: nodes[i].num for i in keep}
+        index = {nodes[i]: new[i] for i in keep}
+        order2 = [index.get(x, -1) for x in g.rpo]
+    except Exception:
+        ctx.fail('remove:exception:%s' % cls, dict(rec, removed_node=r), traceback.format_exc())
+        return
+    ctx.count('renumbered_after_removing_node')
+    probs = dm.rpo_problems(n - 1, succ2, 0, num2, order2)
+    if probs:
+        rec = dict(rec, removed_node=r, num=[num2[i] for i in range(n - 1)], rpo=order2)
+        for clause in sorted({c for c, _ in probs}):
+            ctx.fail('remove:%s:%s' % (clause, cls), rec,
+                     'after remove_node(n%d) and compute_rpo() again (remaining nodes renumbered 0..%d): ' % (r, n - 2)
+                     + '; '.join(d for c, d in probs if c == clause)[:600])
+
+
+def big_graph(n, seed):
+    """deterministic large but *shallow* graph (all nodes reachable; depth <= 40 so that the recursive walk of the code
+    under test stays far from the interpreter's recursion limit): nodes in layers, every node has a parent in the
+    previous layer, plus edges to the next one or two layers (diamonds c->t, c->j, t->j), a few catch edges and back
+    edges; derived from `seed` with a fixed linear congruential sequence."""
+    x = [seed & 0x7fffffff]
+
+    def rnd(m):
+        x[0] = (x[0] * 1103515245 + 12345) & 0x7fffffff
+        return (x[0] >> 8) % m
+    nl = 12 + rnd(28)
+    layer_of = [0] + [1 + (i * (nl - 1)) // (n - 1) for i in range(n - 1)]      # node 0 alone in layer 0
+    layers = {}
+    for i, l in enumerate(layer_of):
+        layers.setdefault(l, []).append(i)
+    edges = []
+    for i in range(1, n):
+        prev = layers[layer_of[i] - 1]
+        edges.append([prev[rnd(len(prev))], i, 0])
+    for _ in range(n // 2):
+        a = rnd(n)
+        la = layer_of[a]
+        kind = rnd(10)
+        if kind == 0 and la > 0:
+            tgt = layers[rnd(la)]                      # back edge to an earlier layer
+        else:
+            tgt = layers.get(la + 1 + rnd(2))          # forward / cross edge
+        if tgt:
+            edges.append([a, tgt[rnd(len(tgt))], 1 if kind == 1 else 0])
+    return {'n': n, 'edges': edges, 'family': 'big'}
+
+
 NSPLIT4 = 16
 
 
 def shards(tier, seed):
-    sh = [('small',)] + [('exh4', k) for k in range(NSPLIT4)]
+    sh = [('small',), ('big',)] + [('exh4', k) for k in range(NSPLIT4)]
     if tier == 'thorough':
         sh += [('exh5', k, 64) for k in range(64)]
         sh += [('hyp', k) for k in range(24)]
@@ -209,6 +275,13 @@ def run_shard(ctx, shard):
                 c = dg.graph_from_mask(n, mask, prs, kinds=dg.kinds_from_int(m, rnd.getrandbits(2 * m), 3))
                 c['family'] = 'sampled%d' % n
                 check_graph(ctx, c)
+    elif kind == 'big':
+        # graphs well beyond a few hundred nodes (sizes at which an implementation may switch strategy: the decompiler
+        # raises the recursion limit to 5000); sizes and seeds are drawn by Hypothesis, the graph is expanded from them
+        from hypothesis import strategies as st
+        sizes = st.sampled_from([600, 1200, 1300, 2000, 2600] if ctx.tier == 'quick' else [600, 1200, 1251, 1300, 2000, 2600, 3500, 4200])
+        hyp_collect(ctx, st.tuples(sizes, st.integers(0, 1 << 30)), lambda c, v: check_graph(c, big_graph(*v)),
+                    6 if ctx.tier == 'quick' else 40, salt=99, shrink=False)
     else:
         quick = ctx.tier == 'quick'
         hyp_collect(ctx, dg.digraph(max_n=300, unreachable=False), check_graph, 250 if quick else 1500, salt=shard[1])
